@@ -22,9 +22,12 @@ pub static mut COUNT: u32 = 0;
 pub static mut TOTAL: u32 = 0;
 
 /// stub for ArrayVec::<Move, 218>::push in generator harnesses: count pushes of the watched move
-pub fn monitor_push(_v: &mut arrayvec::ArrayVec<Move, 218>, m: Move) {
+/// (generic because the stubbed method is; only ever instantiated with T = Move, 2 bytes)
+pub fn monitor_push<T, const CAP: usize>(_v: &mut arrayvec::ArrayVec<T, CAP>, m: T) {
+    let raw: u16 = unsafe { core::mem::transmute_copy::<T, u16>(&m) };
     unsafe {
-        if raw_of(m) == WATCH { COUNT += 1; }
+        if raw == WATCH { COUNT += 1; }
         TOTAL += 1;
     }
+    core::mem::forget(m);
 }
